@@ -162,7 +162,14 @@ def anydata_oracle(script_lines, out_lines):
         if not t or t[0] in ("---", "cfg"):
             continue
         op = t[0]
-        if op == "new":
+        if op == "husk":
+            a = int(t[1])
+            if a not in slots or not slots[a][2]:
+                exp.append("skip")
+            else:
+                exp.append("husk*")     # moved / none: representation, compared with the model; never "intact"
+            continue
+        if op in ("new", "newc"):
             a, ty, size, v = map(int, t[1:5])
             if a in slots:
                 exp.append("skip")
@@ -207,6 +214,11 @@ def anydata_oracle(script_lines, out_lines):
     for i in range(max(len(exp), len(got))):
         x = exp[i] if i < len(exp) else "<end>"
         y = got[i] if i < len(got) else "<end>"
+        if x == "husk*":
+            if y.startswith("husk intact"):
+                return "output %d: a moved AnyData left its source object intact (it was copied, not moved): %r" % (i, y)
+            if y.startswith("husk "):
+                continue
         if x != y:
             return "output %d: expected %r, implementation gave %r" % (i, x, y)
     for l in out_lines:
@@ -226,8 +238,9 @@ def gen_anydata_script(rng, name, types, exhaustive_ty=None):
         # fixed scenario for one payload type: chain of moves, queue round trip, destruction
         ty = exhaustive_ty
         lines += ["new 0 %d %d %d" % (ty, types[ty], 10 + ty), "get 0", "istype 0 %d" % ty, "istype 0 %d" % ((ty + 1) % len(types))]
+        lines += ["newc 7 %d %d %d" % (ty, types[ty], 20 + ty), "get 7", "istype 7 %d" % ty, "move 8 7", "husk 7", "get 8", "istype 8 %d" % ty, "del 7", "del 8"]
         for k in range(1, 6):
-            lines += ["move %d %d" % (k, k - 1), "get %d" % k, "get %d" % (k - 1)]
+            lines += ["move %d %d" % (k, k - 1), "get %d" % k, "get %d" % (k - 1), "husk %d" % (k - 1)]
         lines += ["qput 5", "new 6 %d %d 3" % (ty, types[ty]), "qput 6", "qproc"] + ["del %d" % k for k in range(0, 7)]
         return "\n".join(lines) + "\n"
     for _ in range(steps):
@@ -235,11 +248,13 @@ def gen_anydata_script(rng, name, types, exhaustive_ty=None):
         a = rng.randrange(nslots)
         if r < 0.3:
             ty = rng.choice(tys)
-            lines.append("new %d %d %d %d" % (a, ty, types[ty], rng.randint(0, 100)))
+            lines.append("%s %d %d %d %d" % (rng.choice(["new", "new", "newc"]), a, ty, types[ty], rng.randint(0, 100)))
         elif r < 0.55:
             lines.append("move %d %d" % (a, rng.randrange(nslots)))
-        elif r < 0.7:
+        elif r < 0.64:
             lines.append("get %d" % a)
+        elif r < 0.7:
+            lines.append("husk %d" % a)
         elif r < 0.78:
             lines.append("istype %d %d" % (a, rng.choice(tys)))
         elif r < 0.88:
